@@ -311,3 +311,47 @@ package pickle
 //@ (assert (=> isFailure (= err1 recovered)))  ; Decode$1#post:catches-errors
 //@ (assert (not (or (not (= err1 iface.nil)) (not (= x iface.nil)))))
 //@ >>>
+
+// ---------------------------------------------------------------- C08: fingerprinting terminates, deterministically
+// Termination kernel: a value that can be part of a reference cycle is in the memo before the encoder
+// descends into its components, so a cycle ends in a back-reference. (Tuples are exempt: they are
+// immutable and every cycle through a tuple passes through a memoized container.)
+// A pickler describes a value; it does not reach into the encoder.
+//@ func (pickle.Pickler).Pickle
+
+// The writer, seen from the structural contracts: it only appends to the output stream.
+//@ func (pickle.writer).Write variant structural
+//@   modifies olen, obytes
+//@ func (pickle.writer).WriteByte variant structural
+//@   modifies olen, obytes
+//@ func (pickle.writer).WriteString variant structural
+//@   modifies olen, obytes
+//@ func (*pickle.Encoder).encodeString variant structural
+//@   requires e != nil
+//@   modifies olen, obytes
+
+//@ func (*pickle.Encoder).memoize
+//@   requires e != nil && e.memo != nil
+//@   ensures  memoized: comparable(x) ==> has(e.memo, x)
+//@   ensures  memo-grows: forall k: value :: old(has(e.memo, k)) ==> has(e.memo, k)
+//@   modifies mapof(e.memo), olen, obytes
+
+//@ func (*pickle.Encoder).encode
+//@   requires e != nil && e.memo != nil
+//@   ensures  memo-grows: forall k: value :: old(has(e.memo, k)) ==> has(e.memo, k)
+//@   ensures  same-memo: e.memo == old(e.memo)
+//@   trusted
+//@   modifies heap, olen, obytes
+
+//@ func (*pickle.Encoder).encodeComplex
+//@   requires e != nil && e.memo != nil
+//@   deterministic
+//@   callsite encode: assert memoize-before-descend: comparable(x) ==> has(e.memo, x)
+//@   modifies heap, olen, obytes
+//@   loop 0: invariant e != nil && e.memo != nil && (comparable(x) ==> has(e.memo, x))
+//@   loop 1: invariant e != nil && e.memo != nil && (comparable(x) ==> has(e.memo, x))
+//@   loop 2: invariant e != nil && e.memo != nil && (comparable(x) ==> has(e.memo, x))
+//@   loop 3: invariant e != nil && e.memo != nil && (comparable(x) ==> has(e.memo, x))
+//@   loop 4: invariant e != nil && e.memo != nil && (comparable(x) ==> has(e.memo, x))
+//@   loop 5: invariant e != nil && e.memo != nil && (comparable(x) ==> has(e.memo, x))
+//@   loop 6: invariant e != nil && e.memo != nil && (comparable(x) ==> has(e.memo, x))
